@@ -1,5 +1,5 @@
-\* every admitted profile of the BrakingCurve quick config x {flat, down grade, brake build-up} x every choice of the
-\* force limit {2, 5} at every step (the full environment is MCController_thorough.cfg)
+\* every admitted profile of the BrakingCurve quick config x {flat, up grade, down grade, brake build-up} x every
+\* choice of the force limit {2, 3, 5} at every step
 SPECIFICATION CSpec
 CONSTANTS
   Variant = "fixed"
@@ -9,8 +9,8 @@ CONSTANTS
   Lens <- Q_Lens
   Lims <- Q_Lims
   Domain = "admitted"
-  Forces <- Y_Forces
-  Envs <- Y_Envs
+  Forces <- X_Forces
+  Envs <- X_Envs
   Window = 24
   TLen = 1
   Free = TRUE
